@@ -1,6 +1,6 @@
 import VOPyVerif.Proofs.AccuracyRegions
 import VOPyVerif.Proofs.AccuracyAuerGeom
-import VOPyVerif.Proofs.IntegrationRect
+import VOPyVerif.Proofs.IntegrationReal
 /-!
 # C01 — valid confidence regions imply an ε-accurate Pareto set (PaVeBa family, Auer)
 
@@ -747,5 +747,214 @@ example :
     simp only [List.mem_cons, List.not_mem_nil, or_false] at hi'
     rcases hi' with rfl | rfl | rfl <;> exact ⟨by decide +kernel, by norm_num, by decide +kernel⟩
   · decide +kernel
+
+/-! ## real true means -/
+
+/-- **C01 for PaVeBa with real true means.**  `paveba_ball_end_to_end` for true means that are arbitrary
+*real* vectors `μ i : Fin m → ℝ` (the displayed balls are rational data — floats — given by their
+coordinate functions `c r i`, radii `a r i`; every well-formed list input has this form,
+`C09.vec_wellformed`).  If in every round the true mean of every refreshed design lies in its displayed
+ball (`‖μ_i − c_r(i)‖² ≤ a_r(i)²`, `a_r(i) > 0`) and `S = ∅` after round `T` of the executable core, then
+(a) every design outside `P` is dominated by a member of `P` and (b) `m(i,j) ≤ ε` for `i ∈ P` — over `ℝ`.
+C09 and C10 are statements about the real points of the regions, so no rationality is needed. -/
+theorem paveba_ball_end_to_end_real {m N : ℕ} (W : Fin N → Fin m → ℚ) (alpha : Fin N → ℚ) (eps : ℚ)
+    (K : ℕ) (mu : ℕ → Fin m → ℝ) (hWne : ∃ n d, W n d ≠ 0) (heps : 0 < eps) (hal : ∀ n, 0 < alpha n)
+    (init : ℕ → Core.Ball) (c : ℕ → ℕ → Fin m → ℚ) (a : ℕ → ℕ → ℚ) (T : ℕ)
+    (hvalid : ∀ r, r < T → ∀ i,
+      (i ∈ (Core.ballCore (toMat W) (toVec alpha) eps K init (fun r i => ⟨toVec (c r i), a r i⟩) r).S ∨
+        i ∈ (Core.ballCore (toMat W) (toVec alpha) eps K init (fun r i => ⟨toVec (c r i), a r i⟩) r).U) →
+      0 < a r i ∧ ∑ d, (mu i d - (c r i d : ℝ)) ^ 2 ≤ (a r i : ℝ) ^ 2)
+    (hfinal : (Core.ballCore (toMat W) (toVec alpha) eps K init (fun r i => ⟨toVec (c r i), a r i⟩) T).S = []) :
+    (∀ i, i < K →
+      i ∉ (Core.ballCore (toMat W) (toVec alpha) eps K init (fun r i => ⟨toVec (c r i), a r i⟩) T).P →
+      ∃ j ∈ (Core.ballCore (toMat W) (toVec alpha) eps K init (fun r i => ⟨toVec (c r i), a r i⟩) T).P,
+        ∀ n, 0 ≤ ∑ d, (W n d : ℝ) * (mu j d - mu i d)) ∧
+    (∀ i ∈ (Core.ballCore (toMat W) (toVec alpha) eps K init (fun r i => ⟨toVec (c r i), a r i⟩) T).P,
+      ∀ j, j < K →
+        ∃ n, max 0 (∑ d, (W n d : ℝ) * (mu j d - mu i d)) / (alpha n : ℝ) ≤ (eps : ℝ)) := by
+  have hWrows : ∀ w ∈ toMat W, w.length = m := by
+    intro w hw; obtain ⟨n, rfl⟩ := mem_toMat.1 hw; simp
+  have hWne' : ∃ w ∈ toMat W, ∃ x ∈ w, x ≠ 0 := by
+    obtain ⟨n, d, hnd⟩ := hWne
+    exact ⟨toVec (W n), mem_toMat.2 ⟨n, rfl⟩, W n d, by simp [toVec, List.mem_ofFn], hnd⟩
+  have hsm : smul eps (toVec alpha) = toVec (fun n => eps * alpha n) := by
+    simp [smul, toVec, List.map_ofFn, Function.comp_def]
+  have hpos : ∃ n, 0 < (fun n => eps * alpha n) n := by
+    obtain ⟨n, _, _⟩ := hWne
+    exact ⟨n, mul_pos heps (hal n)⟩
+  have hinv := Core.pavebaCore_inv_gen (Core.ballDom (toMat W)) (Core.ballCov (toMat W) (smul eps (toVec alpha)))
+    (fun (b : Core.Ball) (x : Fin m → ℝ) => ∃ cb : Fin m → ℚ, b.c = toVec cb ∧ Core.RBallMem cb b.a x)
+    (fun b => b.c.length = m ∧ 0 < b.a)
+    (Core.RDom W) (Core.RGood W (fun n => eps * alpha n))
+    (by
+      rintro ⟨ca, ra⟩ ⟨cb, rb⟩ x y _ _ ⟨ca', ha, mx⟩ ⟨cb', hb, my⟩ h
+      simp only at ha hb mx my
+      subst ha hb
+      exact Core.ballDom_sound_real W ca' cb' ra rb x y mx my h)
+    (fun a b c _ wa wb wc _ h1 h2 =>
+      Core.ballDom_trans (toMat W) m hWrows a b c wa.1 wb.1 wc.1 (le_of_lt wb.2) h1 h2)
+    (fun a wa => Core.ballDom_irrefl (toMat W) m hWrows hWne' a wa.1 wa.2)
+    (by
+      rintro ⟨ca, ra⟩ ⟨cb, rb⟩ x y _ _ ⟨ca', ha, mx⟩ ⟨cb', hb, my⟩ h
+      simp only at ha hb mx my
+      subst ha hb
+      rw [hsm] at h
+      exact Core.ballCov_sound_real W _ ca' cb' ra rb x y mx my h)
+    K mu (Core.truth_real W _ K mu hpos) init (fun r i => ⟨toVec (c r i), a r i⟩) T
+    (fun r hr i hi => by
+      obtain ⟨h1, h2⟩ := hvalid r hr i hi
+      exact ⟨⟨by simp, h1⟩, c r i, rfl, le_of_lt h1, h2⟩)
+  constructor
+  · intro i hi hiP
+    obtain ⟨j, hj, hji⟩ := hinv.covered i hi (by rw [show (Core.pavebaCore K _ _ init _ T).S = [] from hfinal]; simp) hiP
+    rcases hj with hj | hj
+    · rw [show (Core.pavebaCore K _ _ init _ T).S = [] from hfinal] at hj; simp at hj
+    · exact ⟨j, hj, hji⟩
+  · intro i hi j hj
+    obtain ⟨n, hn⟩ := hinv.acc i hi j hj
+    refine ⟨n, ?_⟩
+    have hapos : (0 : ℝ) < (alpha n : ℝ) := by exact_mod_cast hal n
+    have hepos : (0 : ℝ) < (eps : ℝ) := by exact_mod_cast heps
+    rw [div_le_iff₀ hapos]
+    push_cast at hn
+    exact max_le (by positivity) (le_of_lt hn)
+
+/-- **C01 for the rectangular variants with real true means** (`N = m` facets, as the slack vector
+`ε·α` must have `m` entries): as `paveba_rect_end_to_end`, conclusion (b) under the side condition
+`W·(εα) ≤ εα`. -/
+theorem paveba_rect_end_to_end_real {m : ℕ} (W : Fin m → Fin m → ℚ) (alpha : Fin m → ℚ) (eps : ℚ)
+    (K : ℕ) (mu : ℕ → Fin m → ℝ) (hWne : ∃ n d, W n d ≠ 0) (heps : 0 ≤ eps) (hal : ∀ n, 0 < alpha n)
+    (hpos : ∃ n, 0 < ∑ d, W n d * (eps * alpha d))
+    (hside : ∀ n, ∑ d, W n d * (eps * alpha d) ≤ eps * alpha n)
+    (init : ℕ → Core.Box) (l u : ℕ → ℕ → Fin m → ℚ) (T : ℕ)
+    (hvalid : ∀ r, r < T → ∀ i,
+      (i ∈ (Core.rectCore (toMat W) (toVec alpha) eps K init (fun r i => ⟨toVec (l r i), toVec (u r i)⟩) r).S ∨
+        i ∈ (Core.rectCore (toMat W) (toVec alpha) eps K init (fun r i => ⟨toVec (l r i), toVec (u r i)⟩) r).U) →
+      (∀ d, l r i d < u r i d) ∧ ∀ d, (l r i d : ℝ) ≤ mu i d ∧ mu i d ≤ (u r i d : ℝ))
+    (hfinal : (Core.rectCore (toMat W) (toVec alpha) eps K init
+      (fun r i => ⟨toVec (l r i), toVec (u r i)⟩) T).S = []) :
+    (∀ i, i < K →
+      i ∉ (Core.rectCore (toMat W) (toVec alpha) eps K init (fun r i => ⟨toVec (l r i), toVec (u r i)⟩) T).P →
+      ∃ j ∈ (Core.rectCore (toMat W) (toVec alpha) eps K init (fun r i => ⟨toVec (l r i), toVec (u r i)⟩) T).P,
+        ∀ n, 0 ≤ ∑ d, (W n d : ℝ) * (mu j d - mu i d)) ∧
+    (∀ i ∈ (Core.rectCore (toMat W) (toVec alpha) eps K init (fun r i => ⟨toVec (l r i), toVec (u r i)⟩) T).P,
+      ∀ j, j < K →
+        ∃ n, max 0 (∑ d, (W n d : ℝ) * (mu j d - mu i d)) / (alpha n : ℝ) ≤ (eps : ℝ)) := by
+  have hWrows : ∀ w ∈ toMat W, w.length = m := by
+    intro w hw; obtain ⟨n, rfl⟩ := mem_toMat.1 hw; simp
+  have hWne' : ∃ w ∈ toMat W, ∃ x ∈ w, x ≠ 0 := by
+    obtain ⟨n, d, hnd⟩ := hWne
+    exact ⟨toVec (W n), mem_toMat.2 ⟨n, rfl⟩, W n d, by simp [toVec, List.mem_ofFn], hnd⟩
+  have hmpos : 0 < m := by
+    obtain ⟨n, _, _⟩ := hWne
+    exact Fin.pos n
+  have hsm : smul eps (toVec alpha) = toVec (fun d => eps * alpha d) := by
+    simp [smul, toVec, List.map_ofFn, Function.comp_def]
+  have hvle : ∀ b : Core.Box, b.wfB m = true → vle b.l b.u = true := by
+    intro b wb
+    rw [Core.Box.wfB_iff] at wb
+    rw [vle_iff]
+    intro n h1 h2
+    exact le_of_lt (wb.2.2 n h1 h2)
+  have hinv := Core.pavebaCore_inv_gen (Core.rectDom (toMat W) [0])
+    (Core.rectCov (toMat W) (smul eps (toVec alpha)))
+    (fun (b : Core.Box) (x : Fin m → ℝ) => ∃ lb ub : Fin m → ℚ, b.l = toVec lb ∧ b.u = toVec ub ∧
+      Core.RBoxMem lb ub x)
+    (fun b => b.wfB m = true)
+    (Core.RDom W) (Core.RGood W (fun n => ∑ d, W n d * (eps * alpha d)))
+    (by
+      rintro ⟨la, ua⟩ ⟨lb, ub⟩ x y _ _ ⟨la', ua', h1, h2, mx⟩ ⟨lb', ub', h3, h4, my⟩ h
+      simp only at h1 h2 h3 h4
+      subst h1 h2 h3 h4
+      have := Core.rectDom_sound_real W [0] (fun _ => 0)
+        (by rw [← Core.replicate_eq_toVec]; rfl) la' ua' lb' ub' x y mx my h
+      intro n
+      simpa using this n)
+    (fun a b c _ wa wb wc _ h1 h2 => Core.rectDom_trans (toMat W) m hWrows a b c
+      ((Core.Box.wfB_iff m a).1 wa).1 ((Core.Box.wfB_iff m a).1 wa).2.1
+      ((Core.Box.wfB_iff m b).1 wb).1 ((Core.Box.wfB_iff m b).1 wb).2.1
+      ((Core.Box.wfB_iff m c).1 wc).1 ((Core.Box.wfB_iff m c).1 wc).2.1
+      (hvle a wa) (hvle b wb) (hvle c wc) h1 h2)
+    (fun a wa => Core.rectDom_irrefl (toMat W) m hWrows hWne' a ((Core.Box.wfB_iff m a).1 wa).1
+      ((Core.Box.wfB_iff m a).1 wa).2.1 ((Core.Box.wfB_iff m a).1 wa).2.2)
+    (by
+      rintro ⟨la, ua⟩ ⟨lb, ub⟩ x y _ _ ⟨la', ua', h1, h2, mx⟩ ⟨lb', ub', h3, h4, my⟩ h
+      simp only at h1 h2 h3 h4
+      subst h1 h2 h3 h4
+      rw [hsm] at h
+      obtain ⟨n, hn⟩ := Core.rectCov_sound_real W hmpos _ (fun d => eps * alpha d)
+        (Core.expandSlack_self m _ (by simp)) la' ua' lb' ub' x y mx my h
+      refine ⟨n, ?_⟩
+      have e : ∑ d, (W n d : ℝ) * (y d - x d - ((eps * alpha d : ℚ) : ℝ)) =
+          ∑ d, (W n d : ℝ) * (y d - x d) - ((∑ d, W n d * (eps * alpha d) : ℚ) : ℝ) := by
+        push_cast
+        rw [← Finset.sum_sub_distrib]
+        apply Finset.sum_congr rfl; intro d _; ring
+      rw [e] at hn
+      linarith)
+    K mu (Core.truth_real W _ K mu hpos) init (fun r i => ⟨toVec (l r i), toVec (u r i)⟩) T
+    (fun r hr i hi => by
+      obtain ⟨h1, h2⟩ := hvalid r hr i hi
+      refine ⟨?_, l r i, u r i, rfl, rfl, h2⟩
+      rw [Core.Box.wfB_iff]
+      refine ⟨by simp, by simp, ?_⟩
+      intro d hd1 hd2
+      simpa [Core.getElem_toVec] using h1 ⟨d, by simpa using hd1⟩)
+  constructor
+  · intro i hi hiP
+    obtain ⟨j, hj, hji⟩ := hinv.covered i hi
+      (by rw [show (Core.pavebaCore K _ _ init _ T).S = [] from hfinal]; simp) hiP
+    rcases hj with hj | hj
+    · rw [show (Core.pavebaCore K _ _ init _ T).S = [] from hfinal] at hj; simp at hj
+    · exact ⟨j, hj, hji⟩
+  · intro i hi j hj
+    obtain ⟨n, hn⟩ := hinv.acc i hi j hj
+    refine ⟨n, ?_⟩
+    have hapos : (0 : ℝ) < (alpha n : ℝ) := by exact_mod_cast hal n
+    have hepos : (0 : ℝ) ≤ (eps : ℝ) := by exact_mod_cast heps
+    have hs' : ((∑ d, W n d * (eps * alpha d) : ℚ) : ℝ) ≤ ((eps * alpha n : ℚ) : ℝ) := by
+      exact_mod_cast hside n
+    rw [div_le_iff₀ hapos]
+    push_cast at hs' hn
+    exact max_le (by positivity) (by linarith)
+
+/-! ### non-vacuity of the real-valued statements (the scenario of the examples above, means cast to `ℝ`) -/
+
+private def rMu : ℕ → Fin 2 → ℚ := fun i => if i = 0 then ![0, 0] else if i = 1 then ![2, 2] else ![2, 9/4]
+
+/-- `paveba_ball_end_to_end_real` applies: the core run ends with `P = {1,2}`, and conclusion (a) for
+design 0 follows over `ℝ`. -/
+example :
+    (Core.ballCore (toMat ![![1, 0], ![0, 1]]) (toVec ![1, 1]) (1/2) 3 (fun _ => ⟨[], 0⟩)
+      (fun r i => ⟨toVec (rMu i), if r = 0 then 2 else 1/4⟩) 2).P = [1, 2] ∧
+    ∃ j ∈ (Core.ballCore (toMat ![![1, 0], ![0, 1]]) (toVec ![1, 1]) (1/2) 3 (fun _ => ⟨[], 0⟩)
+      (fun r i => ⟨toVec (rMu i), if r = 0 then 2 else 1/4⟩) 2).P,
+      ∀ n, 0 ≤ ∑ d, ((![![1, 0], ![0, 1]] : Fin 2 → Fin 2 → ℚ) n d : ℝ) * ((rMu j d : ℝ) - (rMu 0 d : ℝ)) := by
+  refine ⟨by decide +kernel, ?_⟩
+  refine (paveba_ball_end_to_end_real ![![1, 0], ![0, 1]] ![1, 1] (1/2) 3 (fun i d => (rMu i d : ℝ))
+    ⟨0, 0, by norm_num⟩ (by norm_num) (by intro n; fin_cases n <;> norm_num) (fun _ => ⟨[], 0⟩)
+    (fun _ i => rMu i) (fun r _ => if r = 0 then 2 else 1/4) 2 ?_ (by decide +kernel)).1 0 (by norm_num)
+    (by decide +kernel)
+  intro r _ i _
+  refine ⟨by split_ifs <;> norm_num, ?_⟩
+  simp only [sub_self, ne_eq, OfNat.ofNat_ne_zero, not_false_eq_true, zero_pow, Finset.sum_const_zero]
+  exact sq_nonneg _
+
+/-- `paveba_rect_end_to_end_real` applies to the box scenario. -/
+example :
+    ∃ j ∈ (Core.rectCore (toMat ![![1, 0], ![0, 1]]) (toVec ![1, 1]) (1/2) 3 (fun _ => ⟨[], []⟩)
+      (fun r i => ⟨toVec (fun d => rMu i d - (if r = 0 then 2 else 1/8)),
+        toVec (fun d => rMu i d + (if r = 0 then 2 else 1/8))⟩) 2).P,
+      ∀ n, 0 ≤ ∑ d, ((![![1, 0], ![0, 1]] : Fin 2 → Fin 2 → ℚ) n d : ℝ) * ((rMu j d : ℝ) - (rMu 0 d : ℝ)) := by
+  refine (paveba_rect_end_to_end_real ![![1, 0], ![0, 1]] ![1, 1] (1/2) 3 (fun i d => (rMu i d : ℝ))
+    ⟨0, 0, by norm_num⟩ (by norm_num) (by intro n; fin_cases n <;> norm_num)
+    ⟨0, by norm_num [Fin.sum_univ_two]⟩ (by intro n; fin_cases n <;> norm_num [Fin.sum_univ_two])
+    (fun _ => ⟨[], []⟩) (fun r i d => rMu i d - (if r = 0 then 2 else 1/8))
+    (fun r i d => rMu i d + (if r = 0 then 2 else 1/8)) 2 ?_ (by decide +kernel)).1 0 (by norm_num)
+    (by decide +kernel)
+  intro r _ i _
+  refine ⟨fun d => by split_ifs <;> linarith, fun d => ?_⟩
+  push_cast
+  constructor <;> split_ifs <;> norm_num
 
 end VOPy.C01
